@@ -9,9 +9,9 @@ open Model.Alter Spec.Alter
 /-- the identity transitions `visit_identity_column` (postgresql) is written for -/
 def identitySupported (r : Req) : Bool :=
   match r.serverDefault, r.exDefault with
-  | .set (.identity _ _), .drop => true
-  | .drop, .set (.identity _ _) => true
-  | .unset, .set (.identity _ _) => true
+  | .set (.identity _ _ _), .drop => true
+  | .drop, .set (.identity _ _ _) => true
+  | .unset, .set (.identity _ _ _) => true
   | _, _ => false
 
 theorem exact_impl_postgresql_identity (r : Req) (init : ColState)
@@ -35,7 +35,7 @@ theorem exact_impl_postgresql_identity (r : Req) (init : ColState)
     cases exDefault with
     | set v =>
       cases v with
-      | identity ia is =>
+      | identity ia is ie =>
         cases usingE <;> cases type_ <;> cases nullable <;> cases newName <;> cases comment <;> c13_unfold
       | plain s => simp [identitySupported] at hs
       | computed s => simp [identitySupported] at hs
@@ -43,32 +43,45 @@ theorem exact_impl_postgresql_identity (r : Req) (init : ColState)
     | drop => simp [identitySupported] at hs
   | set v =>
     cases v with
-    | identity ma ms =>
+    | identity ma ms me =>
       cases exDefault with
       | drop =>
         cases usingE <;> cases type_ <;> cases nullable <;> cases newName <;> cases comment <;> c13_unfold
       | set w =>
         cases w with
-        | identity ia is => simp [identitySupported] at hs
+        | identity ia is ie => simp [identitySupported] at hs
         | plain s => simp [identitySupported] at hs
         | computed s => simp [identitySupported] at hs
       | unset => simp [identitySupported] at hs
     | plain s => simp [identitySupported] at hs
     | computed s => simp [identitySupported] at hs
 
+theorem extra_all_ok (me ie : List (String × String)) :
+    me.all (fun kv => (me.filter (fun kv => !(ie.contains kv)) ++ ie).contains kv) = true := by
+  rw [List.all_eq_true]
+  intro kv hkv
+  by_cases h : ie.contains kv = true
+  · simp only [List.contains_iff_mem] at h ⊢
+    exact List.mem_append_right _ h
+  · simp only [List.contains_iff_mem] at h ⊢
+    apply List.mem_append_left
+    simp [List.mem_filter, hkv, h]
+
 /-- `Identity -> Identity`: the statement built from the option diff (`SET GENERATED ...`,
-`SET START WITH n`) takes an identity column with the stated options to the requested identity
-and touches nothing else -/
+`SET <option> ...` for every option the request sets differently, `SET START WITH n`) takes an
+identity column with the stated options to the requested identity and touches nothing else -/
 theorem pg_identity_alter_ok (t : TRef) (s : ColState) (ma ia : Bool) (ms is : Option Nat)
-    (hd : s.default = some (.identity ia is)) :
-    ∃ st, compile .postgresql t s.name (.identityDefault (some (.identity ma ms)) (.set (.identity ia is))) = .ok st ∧
-      defaultIs (applyStmt s st).default (.identity ma ms) = true ∧
+    (me ie : List (String × String))
+    (hd : s.default = some (.identity ia is ie)) :
+    ∃ st, compile .postgresql t s.name (.identityDefault (some (.identity ma ms me)) (.set (.identity ia is ie))) = .ok st ∧
+      defaultIs (applyStmt s st).default (.identity ma ms me) = true ∧
       applyStmt s st = { s with default := (applyStmt s st).default } := by
   obtain ⟨name, ty, n, dflt, c, ai⟩ := s
   simp only at hd
   subst hd
   cases ma <;> cases ia <;> cases ms <;> cases is <;>
     simp [compile, identOpts, Tri.val?, DefVal.isIdentity, applyStmt, Stmt.col, effect, defaultIs] <;>
-    (try (split <;> simp_all [applyStmt, Stmt.col, effect, defaultIs]))
+    (try (split <;> simp_all [applyStmt, Stmt.col, effect, defaultIs])) <;>
+    (try (intro a b h; by_cases h2 : (a, b) ∈ ie <;> simp_all))
 
 end Lemmas.Alter
